@@ -111,7 +111,18 @@ pub fn run(a: &Args, rep: &mut Report) {
     // assembler
     let mut rng = Rng::derive(a.seed, a.shard, 201);
     for _ in 0..scale(if q { 200_000.0 } else { 10_000_000.0 }) {
-        let t = crate::mon_text::corpus_text(&mut rng, &table);
+        let mut t = crate::mon_text::corpus_text(&mut rng, &table);
+        // layout variants a parser may treat differently: an instruction continued on the next line
+        // (after the mnemonic or after a comma), CRLF line ends, tabs, no / several trailing newlines
+        match rng.below(12) {
+            0 => t = t.replacen(", ", ",\n ", 1),
+            1 => t = t.replacen(' ', "\n ", 1),
+            2 => t = t.replace('\n', "\r\n"),
+            3 => t = t.replace(' ', "\t"),
+            4 => t.push_str("\n\n"),
+            5 => t = t.replacen(", ", " ,\n\t", 1),
+            _ => {}
+        }
         let r = sys::catch(|| rbpf::assembler::assemble(&t));
         let out = match r {
             Ok(Ok(b)) => format!("Ok({})", hex(&b)),
